@@ -9,9 +9,9 @@ From Bifrost Require Import Lib.Base Link.Model Link.Maps Link.Proofs.
    reported established by the transport, and the request's source is empty or
    the controller's own peer *)
 Theorem c04_yielded_sound : forall U me h src dst q,
-  In q (yielded U lost_broadcasts me h src dst) ->
+  In q (yielded U lost_broadcasts true me h src dst) ->
   (src = 0 \/ src = me) /\ dst <> 0 /\ remote_of U q = dst /\ remote_of U q <> me /\ In (Est q) h.
-Proof. intros U. exact (yielded_sound U lost_broadcasts). Qed.
+Proof. intros U. exact (yielded_sound U lost_broadcasts true). Qed.
 Print Assumptions c04_yielded_sound.
 
 (* hence, for a transport that reports links whose local peer is its own peer
@@ -19,11 +19,11 @@ Print Assumptions c04_yielded_sound.
    links from S (when S is given) to D *)
 Theorem c04_yielded_between : forall U me h src dst q,
   (forall p, In (Est p) h -> local_of U p = me) ->
-  In q (yielded U lost_broadcasts me h src dst) ->
+  In q (yielded U lost_broadcasts true me h src dst) ->
   (src = 0 \/ local_of U q = src) /\ remote_of U q = dst /\ local_of U q = me.
 Proof.
   intros U me h src dst q Hc H.
-  destruct (yielded_sound U lost_broadcasts _ _ _ _ _ H) as (Hs & _ & Hr & _ & HE).
+  destruct (yielded_sound U lost_broadcasts true _ _ _ _ _ H) as (Hs & _ & Hr & _ & HE).
   rewrite (Hc _ HE). destruct Hs as [-> | ->]; tauto.
 Qed.
 Print Assumptions c04_yielded_between.
@@ -32,8 +32,34 @@ Print Assumptions c04_yielded_between.
 Theorem c04_running_directives_sound : forall U me h a b v q,
   In (a, b, v) (st_dirs (run U me h)) -> In q v ->
   (a = 0 \/ a = me) /\ b <> 0 /\ remote_of U q = b /\ remote_of U q <> me /\ In (Est q) h.
-Proof. intros U. exact (dirs_sound U lost_broadcasts). Qed.
+Proof. intros U. exact (dirs_sound U lost_broadcasts true). Qed.
 Print Assumptions c04_running_directives_sound.
+
+(* start-up ordering: requests (any sources/targets, any number) that reach the
+   controller BEFORE its transport is constructed, followed by the construction
+   and any history h, yield exactly what the same request yields on a controller
+   whose transport was constructed first -- the source check is made against the
+   transport's peer when the resolver runs, whenever the directive arrived; in
+   particular a request with another peer as source yields nothing *)
+Theorem c04_arrival_time_irrelevant : forall U me pre h src dst q,
+  lost_broadcasts = true ->
+  forallb is_request pre = true ->
+  (In q (yielded U lost_broadcasts false me (pre ++ Ready :: h) src dst) <->
+   In q (yielded U lost_broadcasts true me h src dst)).
+Proof. intros U me pre h src dst q ->. exact (arrival_time_irrelevant U me pre h src dst q). Qed.
+Print Assumptions c04_arrival_time_irrelevant.
+
+Theorem c04_yielded_sound_from_startup : forall U me h src dst q,
+  In q (yielded U lost_broadcasts false me h src dst) ->
+  (src = 0 \/ src = me) /\ dst <> 0 /\ remote_of U q = dst /\ remote_of U q <> me /\ In (Est q) h.
+Proof. intros U. exact (yielded_sound U lost_broadcasts false). Qed.
+Print Assumptions c04_yielded_sound_from_startup.
+
+Theorem c04_early_directives_sound : forall U me h a b v q,
+  In (a, b, v) (st_dirs (run_gen U lost_broadcasts (init0 me) h)) -> In q v ->
+  (a = 0 \/ a = me) /\ b <> 0 /\ remote_of U q = b /\ remote_of U q <> me /\ In (Est q) h.
+Proof. intros U. exact (dirs_sound U lost_broadcasts false). Qed.
+Print Assumptions c04_early_directives_sound.
 
 (* a link whose remote peer is the local peer is closed, changes no table ... *)
 Theorem c04_self_dial_closed : forall U s p,
@@ -43,16 +69,16 @@ Print Assumptions c04_self_dial_closed.
 
 (* ... and is never yielded nor reported *)
 Theorem c04_self_never_yielded : forall U me h src dst q,
-  remote_of U q = me -> ~ In q (yielded U lost_broadcasts me h src dst).
+  remote_of U q = me -> ~ In q (yielded U lost_broadcasts true me h src dst).
 Proof.
-  intros U me h src dst q Hs H. pose proof (yielded_sound U lost_broadcasts _ _ _ _ _ H) as H'.
+  intros U me h src dst q Hs H. pose proof (yielded_sound U lost_broadcasts true _ _ _ _ _ H) as H'.
   unfold DirOk in H'. tauto.
 Qed.
 Print Assumptions c04_self_never_yielded.
 
 Theorem c04_self_never_reported : forall U me h r q,
   remote_of U q = me -> ~ In q (get_peer_links U (run U me h) r).
-Proof. intros U. exact (self_never_reported U lost_broadcasts). Qed.
+Proof. intros U. exact (self_never_reported U lost_broadcasts true). Qed.
 Print Assumptions c04_self_never_reported.
 
 (* every stream mounted on a link reports that link's remote peer, and the
@@ -71,9 +97,12 @@ Definition ex_univ : nat -> link := fun p =>
   end.
 Example c04_nonvacuous :
   let h := [Est 0%nat; Est 1%nat; Est 2%nat] in
-  yielded ex_univ lost_broadcasts 1 h 1 2 = [2%nat]
-  /\ yielded ex_univ lost_broadcasts 1 h 0 3 = [1%nat]
-  /\ yielded ex_univ lost_broadcasts 1 h 4 2 = []
-  /\ yielded ex_univ lost_broadcasts 1 h 0 1 = []
-  /\ st_closed (run ex_univ 1 h) = [0%nat].
+  yielded ex_univ lost_broadcasts true 1 h 1 2 = [2%nat]
+  /\ yielded ex_univ lost_broadcasts true 1 h 0 3 = [1%nat]
+  /\ yielded ex_univ lost_broadcasts true 1 h 4 2 = []
+  /\ yielded ex_univ lost_broadcasts true 1 h 0 1 = []
+  /\ st_closed (run ex_univ 1 h) = [0%nat]
+  (* a foreign-source request made before the transport exists still yields nothing *)
+  /\ yielded ex_univ lost_broadcasts false 1 ([Resolve 4 2; Resolve 1 2; Ready] ++ h) 4 2 = []
+  /\ yielded ex_univ lost_broadcasts false 1 ([Resolve 4 2; Resolve 1 2; Ready] ++ h) 1 2 = [2%nat].
 Proof. vm_compute. repeat split. Qed.
